@@ -2,7 +2,8 @@
 (* Bounded enumeration for Emit.tla (MODE selects the universe):
      shapes : every fieldset pattern with <= 3 fields (ctor x style x used/`_` mask x terminal/nonterminal per field):
               ShapeLaws hold; each pattern is printed with the predicted emitted shape.
-     types  : every payload type of depth <= 1 with <= 2 arguments over paths of <= 2 segments: TypeTokens is injective;
+     types  : every payload type of depth <= 1 with <= 2 arguments over paths of <= 2 segments, plus 3- and 4-argument lists in
+              every order of three leaves and a nested 3-argument application in every position: TypeTokens is injective;
               each type is printed with its token sequence.
      attrs  : declaration lists (struct / enum / terminal) with 0-2 attributes each: the emitter's layout satisfies the
               placement law.
@@ -23,7 +24,17 @@ Decls == { [ctor |-> c, style |-> "empty", fields |-> <<>>] : c \in {"struct", "
 Idents == {"a9", "B", "N"}
 Paths == { <<x>> : x \in Idents } \cup { <<x, y>> : x \in Idents, y \in Idents }
 T0 == { [k |-> "unit", path |-> <<>>, args |-> <<>>] } \cup { [k |-> "path", path |-> p, args |-> <<>>] : p \in Paths }
-T1 == T0 \cup { [k |-> "app", path |-> p, args |-> a] : p \in Paths, a \in { <<x>> : x \in T0 } \cup { <<x, y>> : x \in T0, y \in T0 } }
+T1a == T0 \cup { [k |-> "app", path |-> p, args |-> a] : p \in Paths, a \in { <<x>> : x \in T0 } \cup { <<x, y>> : x \in T0, y \in T0 } }
+\* longer argument lists (3 and 4 arguments, every order of three distinguishable leaves) and a 3-argument application nested
+\* as the first, middle or last argument: the order of type arguments is observable only from three arguments on
+Leaf3 == { [k |-> "unit", path |-> <<>>, args |-> <<>>], [k |-> "path", path |-> <<"a9">>, args |-> <<>>], [k |-> "path", path |-> <<"B">>, args |-> <<>>] }
+Wide == { <<x, y, z>> : x \in Leaf3, y \in Leaf3, z \in Leaf3 } \cup { <<x, y, z, w>> : x \in Leaf3, y \in Leaf3, z \in Leaf3, w \in Leaf3 }
+Inner == [k |-> "app", path |-> <<"N">>, args |-> << [k |-> "path", path |-> <<"a9">>, args |-> <<>>], [k |-> "unit", path |-> <<>>, args |-> <<>>],
+                                                   [k |-> "path", path |-> <<"B">>, args |-> <<>>] >>]
+T2 == { [k |-> "app", path |-> p, args |-> a] : p \in { <<"B">>, <<"a9", "N">> }, a \in Wide }
+      \cup { [k |-> "app", path |-> <<"B">>, args |-> a] : a \in { <<Inner, x, y>> : x \in Leaf3, y \in Leaf3 } \cup { <<x, Inner, y>> : x \in Leaf3, y \in Leaf3 }
+                                                               \cup { <<x, y, Inner>> : x \in Leaf3, y \in Leaf3 } }
+T1 == T1a \cup T2
 
 AttrLists == { <<>>, <<"#[a1]">>, <<"#[a1]", "#[a2]">> }
 DeclLists == { << [name |-> "T", attrs |-> a1], [name |-> "A", attrs |-> a2], [name |-> "B", attrs |-> a3] >> : a1 \in AttrLists, a2 \in AttrLists, a3 \in AttrLists }
